@@ -67,6 +67,30 @@ def jsxMemberToExpr : Node → Node
     .mk .member [] [o, p]
   | n => n
 
+/-- the identifier a member tag starts with (`a` in `<a.b.C>`) -/
+def memberRoot : Node → Option String
+  | .mk .jsxMember _ [obj, _] =>
+    (match obj with
+     | .mk .ident (n :: _) _ => some n
+     | .mk .ident [] _ => none
+     | m => memberRoot m)
+  | _ => none
+
+/-- `<a-b.C>`: nothing can be bound to `a-b` (and `a-b.C` is a subtraction): reported -/
+def memberRootCheck (m : Node) (st : St) : St :=
+  match memberRoot m with
+  | some n => if n != "this" && !isValidSymbol n then st.err "Error: The object of a member tag must be an identifier." else st
+  | none => st
+
+theorem memberRootCheck_cases (m : Node) (st : St) :
+    memberRootCheck m st = st ∨ memberRootCheck m st = st.err "Error: The object of a member tag must be an identifier." := by
+  unfold memberRootCheck
+  split
+  · split
+    · right; rfl
+    · left; rfl
+  · left; rfl
+
 /-- `transform_tag(jsx_element_name)` -/
 def transformTag (env : Env) (nameN : Node) (st : St) : Node × St :=
   match nameN with
@@ -78,7 +102,7 @@ def transformTag (env : Env) (nameN : Node) (st : St) : Node × St :=
       let (rc, st) := st.importFromVue "resolveComponent"
       (nCall rc [nArg (nStr name)], st)
     else (nIdent name bind, st)
-  | .mk .jsxMember as ks => (jsxMemberToExpr (.mk .jsxMember as ks), st)
+  | .mk .jsxMember as ks => (jsxMemberToExpr (.mk .jsxMember as ks), memberRootCheck (.mk .jsxMember as ks) st)
   | .mk .jsxNsName _ [nsN, nmN] => (nStr (identName nsN ++ ":" ++ identName nmN), st)     -- `<svg:rect>`: the qualified name
   | n => (n, st)
 
